@@ -688,6 +688,8 @@ fn pairs() -> Vec<Pair> {
         pair!("tok3", TokA3, TokB3),
         pair!("tok16", TokA16, TokB16),
         pair!("tok64", TokA64, TokB64),
+        pair!("tok96", TokA96, TokB96),
+        pair!("u64x16", [u64; 16], [u64; 16]),
         pair!("tokheap", TokAH, TokBH),
         pair!("zst", TokAZ, TokBZ),
         pair!("string", String, String),
